@@ -22,6 +22,11 @@ pub const PROTO_PREFIX: &str = "osmo";
 /// which cargo-feature build of the staking contract (and hence which target chain) is simulated
 pub const MINIWASM: bool = cfg!(feature = "miniwasm");
 pub const SIM_CHANNEL: &str = "channel-0";
+/// a second open channel to the native chain (what an admin moves the configuration to when the first one's
+/// client expires); IBC numbers the packets of every channel from 1
+pub const ALT_CHANNEL: &str = "channel-5";
+/// packets of the second channel are filed under ALT_BASE + sequence in the simulator's own tables
+pub const ALT_BASE: u64 = 1 << 48;
 pub const T0: u64 = 1_700_000_000;
 pub const TX_INDEX: u32 = 3;
 /// Block headers carry nanoseconds; every simulated block is stamped one nanosecond before the next full
@@ -125,6 +130,8 @@ pub struct Ibc {
     pub flight: BTreeMap<u64, Packet>,
     /// fault injection for the reply path of the next transfer: 0 none, 1 reply data absent, 2 garbage bytes
     pub reply_fault: u8,
+    /// next sequence on ALT_CHANNEL
+    pub alt_next_seq: u64,
 }
 
 #[derive(Clone, Debug, PartialEq, Eq, Serialize)]
@@ -317,7 +324,7 @@ impl World {
             kv: Kv::default(),
             bank: BTreeMap::new(),
             factory: BTreeMap::new(),
-            ibc: Ibc { up: true, next_seq: 1, flight: BTreeMap::new(), reply_fault: 0 },
+            ibc: Ibc { up: true, next_seq: 1, flight: BTreeMap::new(), reply_fault: 0, alt_next_seq: 1 },
             native: BTreeMap::new(),
             native_minted: 0,
             oracle_last: None,
@@ -694,7 +701,7 @@ impl World {
                 if !self.ibc.up {
                     return Err("ibc: channel not open / client expired".into());
                 }
-                if port != "transfer" || channel != SIM_CHANNEL {
+                if port != "transfer" || (channel != SIM_CHANNEL && channel != ALT_CHANNEL) {
                     return Err(format!("ibc: unknown port/channel {port}/{channel}"));
                 }
                 if sender != me {
@@ -718,8 +725,16 @@ impl World {
                     return Err("MsgTransfer: timeout in the past".into());
                 }
                 self.debit(&sender, &c.denom, a)?;
-                let seq = self.ibc.next_seq;
-                self.ibc.next_seq += 1;
+                // `seq` is the simulator's handle of the packet, `cseq` the sequence the chain reports
+                let (seq, cseq) = if channel == ALT_CHANNEL {
+                    let c = self.ibc.alt_next_seq;
+                    self.ibc.alt_next_seq += 1;
+                    (ALT_BASE + c, c)
+                } else {
+                    let c = self.ibc.next_seq;
+                    self.ibc.next_seq += 1;
+                    (c, c)
+                };
                 let callback = match serde_json::from_str::<serde_json::Value>(&memo) {
                     Ok(v) => v.get("ibc_callback").and_then(|x| x.as_str()).map(|s| s == me).unwrap_or(false),
                     Err(_) => false,
@@ -733,7 +748,7 @@ impl World {
                 let data = match self.ibc.reply_fault {
                     1 => None,
                     2 => Some(vec![0xff, 0xff, 0xff]),
-                    _ => Some(wire::write(&vec![(1, Val::Varint(seq))])),
+                    _ => Some(wire::write(&vec![(1, Val::Varint(cseq))])),
                 };
                 Ok(data)
             }
@@ -788,10 +803,11 @@ impl World {
         // "sequence": %d}}}`) and decoded the way the VM decodes it, so that the spelling of the sudo
         // interface is part of what is checked. A document the contract cannot decode fails the sudo call;
         // the ICS-20 refund has happened regardless.
+        let (chan, cseq) = if seq >= ALT_BASE { (ALT_CHANNEL, seq - ALT_BASE) } else { (SIM_CHANNEL, seq) };
         let doc = match kind {
-            0 => serde_json::json!({"ibc_lifecycle_complete": {"ibc_ack": {"channel": SIM_CHANNEL, "sequence": seq, "ack": "{\"result\":\"AQ==\"}", "success": true}}}),
-            1 => serde_json::json!({"ibc_lifecycle_complete": {"ibc_ack": {"channel": SIM_CHANNEL, "sequence": seq, "ack": "{\"error\":\"ABCI code: 1\"}", "success": false}}}),
-            _ => serde_json::json!({"ibc_lifecycle_complete": {"ibc_timeout": {"channel": SIM_CHANNEL, "sequence": seq}}}),
+            0 => serde_json::json!({"ibc_lifecycle_complete": {"ibc_ack": {"channel": chan, "sequence": cseq, "ack": "{\"result\":\"AQ==\"}", "success": true}}}),
+            1 => serde_json::json!({"ibc_lifecycle_complete": {"ibc_ack": {"channel": chan, "sequence": cseq, "ack": "{\"error\":\"ABCI code: 1\"}", "success": false}}}),
+            _ => serde_json::json!({"ibc_lifecycle_complete": {"ibc_timeout": {"channel": chan, "sequence": cseq}}}),
         };
         let msg: SudoMsg = match cosmwasm_std::from_json(serde_json::to_vec(&doc).unwrap()) {
             Ok(m) => m,
